@@ -246,8 +246,12 @@ class GrammarGen:
             return self.ident() + "(" + ", ".join(self.expr(d + 1) for _ in range(r.randrange(0, 4))) + ")"
         if c < 0.78:
             return "(" + self.expr(d + 1) + ")"
-        if c < 0.84:
+        if c < 0.81:
             return self.ident() + "." + self.ident() + "[" + self.expr(d + 1) + "]"
+        if c < 0.84:
+            # a closing bracket directly followed by an opening one
+            return r.choice([self.ident() + "[" + self.expr(d + 1) + "][" + self.expr(d + 1) + "]", self.ident() + "(" + self.expr(d + 1) + ")(" + self.expr(d + 1) + ")",
+                             self.ident() + "[" + self.expr(d + 1) + "](" + self.expr(d + 1) + ")", self.ident() + "(" + self.expr(d + 1) + ")[0]", "(" + self.expr(d + 1) + ")[1]"])
         if c < 0.88:
             return "not " + self.expr(d + 1)
         if c < 0.92:
